@@ -249,9 +249,17 @@ class Gen:
             k = max(k, 2)
             spec["operator"] = c2j(self.unitary(k))
         elif t == "Expresion":
-            phi = self.angle()
-            spec["expr"] = ["expm", ["s_mult", {"num": [0.0, 1.0]}, {"num": phi}, "n"]]
-            spec["context"] = {"n": {"f": "number", "i": 0}}
+            if small and self.opts.get("approx_ops", True) and r.random() < 0.35:
+                # displacement written as an expression: exp(alpha a^dag - alpha* a); needs a bigger cutoff
+                a = r.uniform(0.1, 1.2) * np.exp(1j * r.uniform(0, 2 * math.pi))
+                spec["expr"] = ["expm", ["sub", ["s_mult", {"num": [float(a.real), float(a.imag)]}, "adag"],
+                                          ["s_mult", {"num": [float(a.real), float(-a.imag)]}, "a"]]]
+                spec["context"] = {"a": {"f": "destroy", "i": 0}, "adag": {"f": "create", "i": 0}}
+                spec["approx"] = True
+            else:
+                phi = self.angle()
+                spec["expr"] = ["expm", ["s_mult", {"num": [0.0, 1.0]}, {"num": phi}, "n"]]
+                spec["context"] = {"n": {"f": "number", "i": 0}}
         return spec
 
     def pol_op(self):
@@ -274,6 +282,16 @@ class Gen:
             return {"fam": "custom", "type": "Custom", "operator": c2j(self.unitary(d))}
         if x < 0.6:
             return {"fam": "custom", "type": "Custom", "operator": c2j(self.nonunitary(d)), "nonunitary": True}
+        if x < 0.8:
+            # expression with caller-owned numpy array leaves and a context array the caller keeps
+            A1 = (r.standard_normal((d, d)) + 1j * r.standard_normal((d, d))) / 2
+            A2 = (r.standard_normal((d, d)) + 1j * r.standard_normal((d, d))) / 2
+            return {
+                "fam": "custom", "type": "Expresion", "nonunitary": True,
+                "expr": ["m_mult", {"np": c2j(self.unitary(d))}, ["add", {"np": c2j(A1)}, "K", {"np": c2j(A2)}],
+                         ["s_mult", {"np": c2j(np.eye(d))}, {"num": 0.5}]],
+                "context": {"K": {"f": "const", "m": c2j(np.eye(d) * 1.5), "held": True}},
+            }
         # expression: exp(i (A + A^dag)) with non-commuting pieces
         A = r.standard_normal((d, d)) + 1j * r.standard_normal((d, d))
         Hm = (A + A.conj().T) / 2
